@@ -8,6 +8,7 @@ import (
 	"go/types"
 	"math/big"
 	"sort"
+	"strings"
 
 	"golang.org/x/tools/go/ssa"
 )
@@ -158,7 +159,7 @@ func (ex *Exec) binopTerm(fr *Frame, op token.Token, av, bv Val, opTy, resTy typ
 		case token.SUB:
 			return wrapTo(Sub(a, b), resTy)
 		case token.MUL:
-			return wrapTo(App(SInt, "*", a, b), resTy)
+			return wrapTo(ex.mulTerm(a, b), resTy)
 		case token.QUO:
 			if fr != nil {
 				o := ex.vc.oblige("div0", fr.name("div0:"+ex.exprText(fr, pos, "/")), reach, Neq(b, IntLit(0)), ex.where(pos))
@@ -326,6 +327,11 @@ func (ex *Exec) indexAddr(fr *Frame, x *ssa.IndexAddr, st *State, reach Term) Va
 		p := ex.asPtr(base)
 		ex.nilCheck(fr, p, reach, x.Pos(), "index")
 		ex.boundsObl(fr, "index", x.Pos(), reach, InRange(IntLit(0), idx, IntLit(arr.Len())), isIndexExpr, "array")
+		if p.Kind == rootRef && len(p.Steps) == 0 {
+			// a free-standing array object lives in the element heap
+			n := IntLit(arr.Len())
+			return PtrV{Ty: x.Type(), Kind: rootElem, Slice: MkSlice(p.Ref, IntLit(0), n, n), Idx: idx, RootTy: arr.Elem()}
+		}
 		return p.withStep(Step{Field: -1, Idx: idx}, x.Type())
 	}
 	panic(unsupported("IndexAddr on %s", shortType(x.X.Type())))
@@ -404,6 +410,9 @@ func (ex *Exec) sliceOp(fr *Frame, x *ssa.Slice, st *State, reach Term) Val {
 		p := ex.asPtr(base)
 		goal := And(Le(IntLit(0), lo), Le(lo, hi), Le(hi, mx), Le(mx, n))
 		ex.boundsObl(fr, "slice", x.Pos(), reach, goal, isSliceExpr, "array")
+		if p.Kind == rootRef && len(p.Steps) == 0 {
+			return Scalar{ex.vc.define(x.Name(), MkSlice(p.Ref, lo, Sub(hi, lo), Sub(mx, lo))), x.Type()}
+		}
 		ref := ex.arrayBacking(p, arr, st)
 		return Scalar{ex.vc.define(x.Name(), MkSlice(ref, lo, Sub(hi, lo), Sub(mx, lo))), x.Type()}
 	}
@@ -663,4 +672,28 @@ func (ex *Exec) next(fr *Frame, x *ssa.Next, st *State, reach Term) Val {
 	st.iters[x.Iter] = Ite(okT, pos, cur)
 	st.iters[x.Iter] = ex.vc.define("iter", st.iters[x.Iter])
 	return TupleV{E: []Val{Scalar{okT, types.Typ[types.Bool]}, Scalar{pos, types.Typ[types.Int]}, Scalar{ch, types.Typ[types.Rune]}}}
+}
+
+// mulTerm multiplies; for two non-constant operands it also states the sign-unit facts
+// (x*1, x*-1, x*0) that the solvers do not derive on their own for non-linear terms.
+func (ex *Exec) mulTerm(a, b Term) Term {
+	_, la := isLit(a)
+	_, lb := isLit(b)
+	p := App(SInt, "*", a, b)
+	if la || lb || strings.Contains(a.S, "?") || strings.Contains(b.S, "?") {
+		return p
+	}
+	p = ex.vc.define("mul", p)
+	if !strings.HasPrefix(p.S, "mul!") {
+		c := ex.vc.fresh("mul", SInt)
+		ex.vc.assume(Eq(c, p))
+		p = c
+	}
+	for _, pr := range [][2]Term{{a, b}, {b, a}} {
+		x, y := pr[0], pr[1]
+		ex.vc.assume(Implies(Eq(x, IntLit(1)), Eq(p, y)))
+		ex.vc.assume(Implies(Eq(x, IntLit(-1)), Eq(p, Neg(y))))
+		ex.vc.assume(Implies(Eq(x, IntLit(0)), Eq(p, IntLit(0))))
+	}
+	return p
 }
